@@ -106,7 +106,7 @@ var opaqueTypes = map[string]string{
 	"sync.Once":      "",
 	"sync.WaitGroup": "",
 	"sync.Map":       "",
-	"time.Time":      "Int",
+	"time.Time":      "(_ BitVec 64)",
 	"time.Location":  "",
 	"math/rand.Rand": "",
 }
